@@ -9,7 +9,9 @@ SPEC = {
               model_deps=["theories/Model/Bucket.vo"],
               quick_n=600, thorough_n=12000,
               rule="cases: buckets are opened through the public constructors (storage.NewBucket / NewAPI with cfg.LocalStorage). 50% random sequences of 4..35 operations (write, read, list, storage.Copy inside the bucket followed by a "
-                   "read of the destination and, 75%, by overwrites and reads of BOTH names; copies onto an existing object, onto "
+                   "read of the destination and, 75%, by overwrites and reads of BOTH names; writers as handles: NewWriter / Write.. / Close with "
+                   "a double Close (as every service handler does), writes after Close, then TWO writers open at the same time on "
+                   "different objects with interleaved writes, then reads of all of them; copies onto an existing object, onto "
                    "itself, from absent or colliding names; bursts that put a sibling d-x / d.json / 'd x' next to a directory d and "
                    "list the prefixes selecting only the sibling) on the REAL "
                    "storage.FSBucket in a fresh temporary directory: names of 1..4 ordinary components from a small pool "
@@ -39,6 +41,9 @@ SPEC = {
                   "descendants of stored names, fix 8c1d2a3), the listing is "
                   "the stored names with the STRING prefix in component-wise lexicographic (walk) order without duplicates, "
                   "storage.Copy between different names is write(dst, read(src)) and leaves two independent objects, "
+                  "histories with writer handles (several open at once, closed twice, written after Close) refine the list in "
+                  "which an open writer appends to its own object only (discipline: nothing else stores to an object while a "
+                  "writer is open on it), "
                   "a listing is complete and error-free whatever the state of the caller's context (complete-or-error oracle), "
                   "buckets identified by (storage root, name) do not interfere in any interleaving (each answers as if its own "
                   "operations ran alone), "
